@@ -108,6 +108,14 @@ def check_cover(ctx, repo, rule):
               msg='a coverage repair is missing: found %s' % kinds, construct='cover repairs')
     if len(reps) != 2:
         return
+    # whatever way the breakpoints were specified, they are stretched to the data: the repairs are not under a further condition
+    from ..astutil import path_conditions
+    for n, st, arr, idx, val, strict in reps:
+        conds = [t for t, pol in path_conditions(n)]
+        ctx.check(rule, not conds, f, n, 'the coverage repair for %s applies to every way of specifying breakpoints (no enclosing condition)' % val,
+                  msg='the coverage repair `%s` runs only under `%s`: breakpoints produced by the other placements (every-n positions stop short of the last '
+                      'datum whenever nbkpts - 1 does not divide nx) are not stretched to the data range' % (src(st), src(conds[0])[:60] if conds else ''),
+                  construct='conditional coverage repair')
     arrs = {r[2] for r in reps}
     for n, st, arr, idx, val, strict in reps:
         d = None
@@ -880,6 +888,12 @@ def check_iterfit_loop(ctx, repo):
     ok = bool(init) and ev(try_fold(init[-1].value)) is True
     ctx.check('C10.LOOP', ok, f, init[-1] if init else lp, 'the initial value of %s lets the first pass run' % q,
               msg='the initial value of %s does not let the first fit run' % q, construct='initial completion flag')
+    # the curve that is returned is the one the last rejection pass judged: no fit of the spline set outside the loop
+    fits = [c for c in walk_local(f.node) if isinstance(c, ast.Call) and isinstance(c.func, ast.Attribute) and c.func.attr == 'fit'
+            and not any(a is lp for a in ancestors(c))]
+    ctx.check('C10.LOOP', not fits, f, fits[0] if fits else lp, 'the spline set is fitted inside the fit-reject loop only',
+              msg='iterfit fits the spline set again outside the fit - reject loop (`%s`): the returned curve is then a fit to a mask that no rejection pass has '
+                  'judged, one iteration beyond maxiter' % (src(fits[0])[:60] if fits else ''), construct='fit outside the loop')
     # the un-sort scatter post-dominates the loop on the normal path
     sc = [st for st in walk_local(f.node) if isinstance(st, ast.Assign) and src(st.targets[0]) == 'outmask[xsort]']
     sc = [st for st in sc if st.lineno > lp.end_lineno]        # (early exits scatter too; this obligation is about the normal path)
